@@ -208,7 +208,15 @@ OnCommit(e, lineNo) ==
           !.refreshedPhase = IF IsNoState(st) THEN @ ELSE
                         @ \cup {aux.taintPath[j] : j \in {j \in DOMAIN aux.taintPath :
                               LET f == "file:" \o aux.taintPath[j] IN
-                                f \in Keys(st) /\ f \in Keys(new) /\ st.nodes[f].fhash # new.nodes[f].fhash}},
+                                f \in Keys(st) /\ f \in Keys(new) /\ st.nodes[f].fhash # new.nodes[f].fhash}}
+                        \* the same mechanism when the change is not an external edit (a command overwrote the
+                        \* file): the recorded content of an input is replaced while a consumer of it is running
+                          \cup {st.nodes[f].label : f \in {f \in Keys(st) \cap Keys(new) :
+                                /\ st.nodes[f].kind = "file" /\ st.nodes[f].fhash # NULL
+                                /\ new.nodes[f].fhash # NULL /\ st.nodes[f].fhash # new.nodes[f].fhash
+                                /\ \E c \in Steps(st) \cap Steps(new) : /\ <<f, c>> \in Deps(st)
+                                                                      /\ st.nodes[c].sstate = "RUNNING"
+                                                                      /\ new.nodes[c].sstate = "RUNNING"}},
           !.succeededAt = [x \in (DOMAIN @) \cup nowOk |-> IF x \in nowOk THEN e.k ELSE @[x]],
           !.finalReads = [x \in (DOMAIN @) \cup {s \in nowOk : jobsOf(s) # {}} |->
                             IF x \in nowOk /\ jobsOf(x) # {}
